@@ -258,6 +258,17 @@ pub fn replay_registry(args: &Args) {
     for v in read_vectors(args.s("in")) {
         rep.evaluated += 1;
         let n = v["n"].as_u64().unwrap();
+        if v["kind"] == "catchall" {
+            // the catch-all variants of the two code enums: their byte, what the byte reads back as, is_error
+            let (b, kind, err) = match v["space"].as_str().unwrap() {
+                "method" => { let b = u8::from(MessageClass::Request(RequestType::UnKnown)); (b, class_desc(MessageClass::from(b)).0, None) }
+                _ => { let b = u8::from(MessageClass::Response(ResponseType::UnKnown)); (b, class_desc(MessageClass::from(b)).0, Some(ResponseType::UnKnown.is_error())) }
+            };
+            if b as u64 != n || kind != v["back"].as_str().unwrap() || err.map(|e| e != v["err"].as_bool().unwrap()).unwrap_or(false) {
+                rep.bad("C05", "catch-all code name: byte / read-back / is_error disagree with the registry", json!({"row": v, "got": {"byte": b, "back": kind, "err": err}}));
+            }
+            continue;
+        }
         if v["kind"] == "name" {
             let space = v["space"].as_str().unwrap();
             let name = v["name"].as_str().unwrap();
@@ -266,7 +277,7 @@ pub fn replay_registry(args: &Args) {
                 "option" => ALL_OPTIONS.iter().find(|o| option_name(**o) == name).map(|o| (u16::from(*o) as u64, CoapOption::from(u16::from(*o)) == *o)),
                 "content_format" => ALL_CFS.iter().find(|cf| cf_name(**cf) == name).map(|cf| (usize::from(*cf) as u64, ContentFormat::try_from(usize::from(*cf)).ok() == Some(*cf))),
                 "method" => ALL_METHODS.iter().find(|m| method_name(**m) == name).map(|m| { let b = u8::from(MessageClass::Request(*m)); (b as u64, MessageClass::from(b) == MessageClass::Request(*m)) }),
-                "response" => ALL_RESPONSES.iter().find(|m| response_name(**m) == name).map(|m| { let b = u8::from(MessageClass::Response(*m)); (b as u64, MessageClass::from(b) == MessageClass::Response(*m)) }),
+                "response" => ALL_RESPONSES.iter().find(|m| response_name(**m) == name).map(|m| { let b = u8::from(MessageClass::Response(*m)); (b as u64, MessageClass::from(b) == MessageClass::Response(*m) && m.is_error() == v["err"].as_bool().unwrap()) }),
                 "type" => [MessageType::Confirmable, MessageType::NonConfirmable, MessageType::Acknowledgement, MessageType::Reset].iter().find(|t| type_name(**t) == name).map(|t| { let mut h = Header::new(); h.set_type(*t); (type_num(h.get_type()) as u64, h.get_type() == *t) }),
                 "observe" => [ObserveOption::Register, ObserveOption::Deregister].iter().find(|o| (if **o == ObserveOption::Register { "register" } else { "deregister" }) == name).map(|o| (usize::from(*o) as u64, ObserveOption::try_from(usize::from(*o)).ok() == Some(*o))),
                 _ => tool_error("unknown name space"),
@@ -280,6 +291,10 @@ pub fn replay_registry(args: &Args) {
         // number -> name -> number
         let nn = n as u16;
         let o = CoapOption::from(nn);
+        // the catch-all option / code variants carry any number unchanged, also a registered one
+        if u16::from(CoapOption::Unknown(nn)) != nn || (n <= 255 && u8::from(MessageClass::Reserved(n as u8)) != n as u8) {
+            rep.bad("C05", "catch-all variant does not carry its number", json!({"row": v}));
+        }
         if option_name(o) != v["opt"].as_str().unwrap() || u16::from(o) != nn {
             rep.bad("C05", "option number maps to the wrong name or not back to itself", json!({"row": v, "got": format!("{:?}", o), "back": u16::from(o)}));
         }
